@@ -1,6 +1,11 @@
 SPECIFICATION GenSpec
 CONSTANTS
+  MinNodes = 0
   MaxNodes = 3
   Base = 256
   MaxChain = 2
+  IdxSpace = 8
+  PastEndRule = "ge"
+  CompletionOrder = "rewrite-publish"
+  Withdrawals = FALSE
 CHECK_DEADLOCK FALSE
